@@ -24,6 +24,9 @@ type skGen struct {
 	emittedV map[[2]int]bool
 	center   int
 	span     int
+	clusters []int
+	clusterR int
+	negPct   int
 	values   []float64
 }
 
@@ -97,6 +100,14 @@ func (sg *skGen) pickMapping() {
 	if sg.center+sg.span > hi {
 		sg.center = hi - sg.span
 	}
+	sg.clusters = nil
+	sg.clusterR = []int{4, 10, 24}[r.Intn(3)]
+	sg.negPct = []int{35, 35, 35, 5, 90}[r.Intn(5)]
+	if sg.span >= 64 && r.Bool(50) {
+		for k, n := 0, r.Range(1, 3); k < n; k++ {
+			sg.clusters = append(sg.clusters, sg.center+r.Range(-sg.span+24, sg.span-24))
+		}
+	}
 }
 
 func nudge(x float64, ulps int) float64 {
@@ -109,6 +120,19 @@ func nudge(x float64, ulps int) float64 {
 	return x
 }
 
+// pickIndex: a bin of the window; in clustered histories most picks fall near a few centres (so that
+// paginated stores keep some bins in pages and others in the buffer, and compact repeatedly).
+func (sg *skGen) pickIndex() int {
+	r := sg.g.rng
+	if len(sg.clusters) > 0 && r.Bool(75) {
+		i := sg.clusters[r.Intn(len(sg.clusters))] + r.Range(-sg.clusterR, sg.clusterR)
+		if i >= sg.center-sg.span && i <= sg.center+sg.span {
+			return i
+		}
+	}
+	return sg.center + r.Range(-sg.span, sg.span)
+}
+
 // nextValue returns a trackable value (possibly zero / sub-minimum), sign included.
 func (sg *skGen) nextValue() float64 {
 	r := sg.g.rng
@@ -116,11 +140,11 @@ func (sg *skGen) nextValue() float64 {
 	var v float64
 	switch r.Pick(30, 28, 8, 6, 6, 14, 8) {
 	case 0: // interior of a random bin of the window
-		i := sg.center + r.Range(-sg.span, sg.span)
+		i := sg.pickIndex()
 		lo, hi := m.LowerBound(i), m.LowerBound(i+1)
 		v = lo + (hi-lo)*r.Float01()
 	case 1: // bin edge ± k ulps
-		i := sg.center + r.Range(-sg.span, sg.span)
+		i := sg.pickIndex()
 		v = nudge(m.LowerBound(i), r.Range(-3, 3))
 	case 2: // zero bucket: 0, -0, subnormal, just below the minimum
 		v = []float64{0, math.Copysign(0, -1), 5e-324, m.MinIndexableValue(), nudge(m.MinIndexableValue(), -1), m.MinIndexableValue() / 2}[r.Intn(6)]
@@ -144,7 +168,7 @@ func (sg *skGen) nextValue() float64 {
 			v = nudge(m.LowerBound(i), 2)
 		}
 	}
-	if r.Bool(35) {
+	if r.Bool(sg.negPct) {
 		v = -v
 	}
 	sg.values = append(sg.values, v)
@@ -239,6 +263,19 @@ func (sg *skGen) qValues(h int, howMany int) []float64 {
 	return out
 }
 
+// probe: one multi-quantile read at interior ranks (cheap enough to interleave with every addition)
+func (sg *skGen) probe(h int, howMany int) {
+	sg.ensureValues(h)
+	qs := sg.qValues(h, howMany+2)
+	parts := make([]string, 0, len(qs))
+	for _, q := range qs[2:] {
+		parts = append(parts, hexF(q))
+	}
+	if len(parts) > 0 {
+		sg.line("qs %d %s", h, strings.Join(parts, " "))
+	}
+}
+
 func (sg *skGen) queries(h int, howMany int) {
 	sg.ensureValues(h)
 	qs := sg.qValues(h, howMany)
@@ -310,10 +347,21 @@ func (g *Gen) genSketchHistory(prop string) {
 	}
 	switch prop {
 	case "C01":
-		sg.line("K 1 1 %s", sg.storeSpec(nonCollapsing))
 		n := r.Range(1, maxN)
+		// queries interleaved with the additions (every addition / now and then / only at the end):
+		// a quantile read must not disturb what later additions and reads see
+		qEvery := []int{0, 0, 1, 7, 40}[r.Intn(5)]
+		if qEvery > 0 && r.Bool(60) {
+			n = r.Range(n, 8*maxN) // long enough for the paginated store to compact more than once
+			sg.line("K 1 1 %s", sg.storeSpec([]string{"pag", "pag", "dense", "sparse"}))
+		} else {
+			sg.line("K 1 1 %s", sg.storeSpec(nonCollapsing))
+		}
 		for i := 0; i < n; i++ {
 			sg.add(1, sg.nextValue(), 1)
+			if qEvery > 0 && (i%qEvery == 0 || r.Bool(3)) {
+				sg.probe(1, 10)
+			}
 		}
 		sg.queries(1, 24)
 		sg.obs(1)
@@ -371,7 +419,19 @@ func (sg *skGen) genMergeHistory(maxN int) {
 	for p := 1; p <= parts; p++ {
 		sg.line("K %d 1 %s", p, sg.storeSpec(nonCollapsing))
 	}
+	// parts that were used before, then cleared: they must behave like new sketches in every merge
+	for p := 1; p <= parts; p++ {
+		if r.Bool(25) {
+			for k, m := 0, r.Range(1, 12); k < m; k++ {
+				sg.add(p, sg.nextValue(), sg.weight(50))
+			}
+			sg.line("clear %d", p)
+		}
+	}
 	n := r.Range(0, maxN)
+	if r.Bool(15) {
+		n = r.Range(0, 4)
+	}
 	unit := r.Bool(60)
 	for i := 0; i < n; i++ {
 		v := sg.nextValue()
@@ -516,6 +576,28 @@ func (sg *skGen) genGeneralHistory(maxN int, exact bool) {
 		if sg.prop == "C14" && r.Bool(30) {
 			sg.ensureValues(h)
 			sg.encchk(h, r.Bool(50)) // Encode is a read-only operation too
+		}
+		if sg.prop == "C10" && r.Bool(12) {
+			// encode / decode round trip of the exact variant: statistics restored exactly
+			sg.ensureValues(h)
+			if bs, ok := sg.bytesOf(h, false); ok {
+				e := sg.sh.sks[h]
+				spec := e.storeKind
+				if e.n > 0 {
+					spec = fmt.Sprintf("%s %d", e.storeKind, e.n)
+				}
+				if sg.dec(20, "-", 1, spec, e.exact != nil, bs) == "ok" {
+					sg.ensureValues(20)
+					sg.line("same %d 20", h)
+					if r.Bool(50) { // decode-and-merge into a live sketch
+						o := live[r.Intn(len(live))]
+						if _, isTwin := twin[o]; !isTwin && o != h {
+							sg.line("decm %d %s", o, showBytes(bs))
+							sg.obs(o)
+						}
+					}
+				}
+			}
 		}
 	}
 	for _, h := range live {
